@@ -89,6 +89,7 @@ def classify_out(d):
 
 
 class C18(Check):
+    env_warnings_as_errors = True
     pid = "C18"
     level = "exploration"
     chunk = 60
